@@ -102,7 +102,7 @@ func c16Roundtrip(c *core.Ctx, k *core.Case) {
 		c.Fail(k, "pco-unmarshal-error", fmt.Sprintf("UnMarshal(Marshal(l)): %v (bytes %s)", err, hx(got)))
 		return
 	}
-	if ch, _ := appendProbe(reflect.ValueOf(back)); ch {
+	if ch, _ := appendProbe(reflect.ValueOf(back)); ch || probeLists(reflect.ValueOf(back)) {
 		c.Fail(k, "decoded-slices-share-capacity:PCO", fmt.Sprintf("appending to the contents of one unit parsed from %s changed another unit", hx(got)))
 	}
 	if len(back.ProtocolOrContainerList) != len(units) {
@@ -168,7 +168,7 @@ func c16Parse(c *core.Ctx, k *core.Case) {
 		p := nasConvert.NewProtocolConfigurationOptions()
 		err := p.UnMarshal(b)
 		if err == nil {
-			if ch, _ := appendProbe(reflect.ValueOf(p)); ch {
+			if ch, _ := appendProbe(reflect.ValueOf(p)); ch || probeLists(reflect.ValueOf(p)) {
 				c.Fail(k, "decoded-slices-share-capacity:PCO", fmt.Sprintf("appending to the contents of one unit parsed from %s changed another unit", hx(k.B[0])))
 			}
 		}
